@@ -56,3 +56,15 @@ Print Assumptions C07_origin_validator_in_bounds.
 Theorem C07_request_z : forall n s, request_z n s = request n s.
 Proof. exact request_z_eq. Qed.
 Print Assumptions C07_request_z.
+
+(* the modifier and locator interpreters (AsModifier, AsLocator): no input makes
+   them panic.  AsLocator = modifier, else point/range/complement location, else
+   selector (regexp compilation is a parameter), with the '@' composition. *)
+From GTS Require Import ModParse Select Locator ModSafe.
+Theorem C07_modifier_no_panic : forall s, zlen s <= input_bound -> as_modifier s <> Panic.
+Proof. exact as_modifier_no_panic. Qed.
+Print Assumptions C07_modifier_no_panic.
+
+Theorem C07_locator_no_panic : forall re_ok s, zlen s <= input_bound -> as_locator re_ok s <> Panic.
+Proof. exact as_locator_no_panic. Qed.
+Print Assumptions C07_locator_no_panic.
